@@ -420,13 +420,20 @@ pub fn run(cases: &[Value], trace: &mut Trace, seed: u64) {
                         // good, whatever the clock says (a closed system with every thread asleep makes no progress).
                         let all_served = !serving && srv_res.len() as u64 >= sent;
                         let tids = [call_tid.load(std::sync::atomic::Ordering::SeqCst), s.tid.load(std::sync::atomic::Ordering::SeqCst)];
-                        if (all_served && t0.elapsed() > Duration::from_millis(300) && res.is_none() && all_blocked(&tids, &[]))
+                        // (the caller must have written its request and be asleep in a socket read -- not in some lock on its way
+                        // there -- for this early verdict; everything else takes the watchdog path)
+                        let caller_reads = matches!(thread_state(tids[0]), ('S', 0) | ('S', 45) | ('S', 47) | ('S', 63) | ('S', 207) | ('S', 212));
+                        if (all_served && sent >= 1 && caller_reads && t0.elapsed() > Duration::from_millis(300) && res.is_none() && all_blocked(&tids, &[]))
                             || (t0.elapsed() > Duration::from_millis(2000) && hang_confirmed(t0, &tids, &[s.tx.as_raw_fd()]))
                         {
                             hang = true;
                             let _ = s.tx.shutdown(std::net::Shutdown::Both);
                             if res.is_none() {
                                 res = rx.recv_timeout(Duration::from_millis(3000)).ok();
+                            }
+                            // a call that comes back with a success after all had completed on its own: not a hang
+                            if res.as_deref().map(|r| r.starts_with("ok")).unwrap_or(false) {
+                                hang = false;
                             }
                             break;
                         }
